@@ -47,75 +47,86 @@ def run(run):
 def head_facets(run):
     D = real_module("pydrex.diagnostics")
     T = real_module("pydrex.tensors")
-    created = []
-
-    class Shim(S.NPShim):
-        def empty(self, shape, *a, **k):
-            arr = super().empty(shape, *a, **k)
-            created.append(arr)
-            return arr
-
-    norms = []
-
-    class LAStub:
-        @staticmethod
-        def norm(x, *a, **k):
-            r = S.s_sqrt(sumsq(x))
-            norms.append((x, r))
-            return r
-
-        @staticmethod
-        def eigh(m, *a, **k):
-            raise _Stop()
-
     gT = E.rebind_module(T)
 
     class TP:
         def __getattr__(s, k):
             return gT[k]
 
-    c = E.Ctx([])
-    E.Ctx.cur = c
-    c.reset_path([])
-    g = dict(D.__dict__)
-    g.update(np=Shim(), la=LAStub, _tensors=TP())
-    f = E.rebind_function(D.elasticity_components, g)
     M = symmat_sym("c", 6)
-    try:
-        f(np.array([np.asarray(M, dtype=object)], dtype=object).view(S.SymArray))
-        run.undecided("head", FN, "the eigen-decomposition of the contractions was never requested")
+
+    def body():
+        created, norms = [], []
+
+        class Shim(S.NPShim):
+            def empty(self, shape, *a, **k):
+                arr = super().empty(shape, *a, **k)
+                created.append(arr)
+                return arr
+
+        class LAStub:
+            @staticmethod
+            def norm(x, *a, **k):
+                r = S.s_sqrt(sumsq(x))
+                norms.append((x, r))
+                return r
+
+            @staticmethod
+            def eigh(m, *a, **k):
+                raise _Stop()
+
+        g = dict(D.__dict__)
+        g.update(np=Shim(), la=LAStub, _tensors=TP())
+        f = E.rebind_function(D.elasticity_components, g)
+        try:
+            f(np.array([np.asarray(M, dtype=object)], dtype=object).view(S.SymArray))
+            return None
+        except _Stop:
+            return created, norms
+
+    ex = E.explore(body, hyps=[], max_paths=16)
+    run.paths += len(ex.paths)
+    if not ex.complete or not ex.paths or ex.unsupported:
+        run.undecided("head", FN, "exploration incomplete: " + "; ".join(ex.unsupported[:2]))
         return
-    except _Stop:
-        pass
-    if len(created) < 3:
-        run.undecided("head", FN, "output arrays not found")
-        return
-    K, G_, pa = created[0][0], created[1][0], created[2][0]
-    C = C11.spec_v2t(M)
-    iijj = sum(C[i, i, j, j] for i in range(3) for j in range(3))
-    ijij = sum(C[i, j, i, j] for i in range(3) for j in range(3))
-    H = list(c.hyps) + list(c.pc)
     rp = _rp_head(M)
-    run.prove("bulk modulus == C_iijj / 9 (Voigt)", FN, H, E.clear_formula(S.zz(K) * 9 == S.zz(iijj)), replay=rp)
-    run.prove("shear modulus == (C_ijij - C_iijj / 3) / 10 (Voigt)", FN, H, E.clear_formula(S.zz(G_) * 10 == S.zz(ijij) - S.zz(iijj) / 3), replay=rp)
-    if len(norms) < 2:
-        run.undecided("percent anisotropy", FN, "norms not computed through scipy.linalg.norm")
-        return
-    diff, nd = norms[0]
-    X, nx = norms[1]
-    iso = S.ew(lambda a, b: a - b, X, diff)
-    Xs = C11.spec_m2v(M)
-    prove_entries(run, "the vector compared with the isotropic one is the 21-component Voigt vector of the input", FN, H, X, Xs, replay=rp)
-    kk, gg = S.zz(K), S.zz(G_)
-    r2 = S.SQRT2
-    want_iso = [kk + 4 * gg / 3] * 3 + [r2 * (kk - 2 * gg / 3)] * 3 + [2 * gg] * 3 + [z3.RealVal(0)] * 12
-    run.prove("isotropic vector == (K+4G/3 x3, sqrt2 (K-2G/3) x3, 2G x3, 0 x12)", FN, H, z3.And(*[E.clear_formula(S.zz(a) == b) for a, b in zip(iso, want_iso)]), replay=rp)
-    dot = S._sum(S.ew(lambda a, b: a * b, diff, iso))
-    run.prove("X - X_iso is orthogonal to X_iso (the isotropic part is the orthogonal projection)", FN, H, E.clear_formula(S.zz(dot) == 0), replay=rp)
-    run.prove("percent anisotropy == 100 |X - X_iso| / |X|", FN, H + [S.zz(nx) > 0], E.clear_formula(S.zz(pa) * S.zz(nx) == 100 * S.zz(nd)), replay=rp)
-    run.prove("percent anisotropy in [0, 100] (Pythagoras: |X - X_iso|^2 = |X|^2 - |X_iso|^2)", FN, H + [S.zz(nx) > 0, S.zz(dot) == 0, S.zz(sumsq(X)) == S.zz(sumsq(diff)) + S.zz(sumsq(iso)) + 2 * S.zz(dot), S.zz(sumsq(iso)) >= 0],
-              E.clear_formula(z3.And(S.zz(pa) >= 0, S.zz(pa) <= 100)), replay=rp)
-    run.prove("lemma: |X|^2 == |X - X_iso|^2 + |X_iso|^2 + 2 <X - X_iso, X_iso>", FN, H, S.zz(sumsq(X)) == S.zz(sumsq(diff)) + S.zz(sumsq(iso)) + 2 * S.zz(dot), structural=True)
+    for pi, p in enumerate(ex.paths):
+        pre = "" if len(ex.paths) == 1 else f"path{pi}/"
+        H = list(ex.ctx.hyps) + list(p.pc)
+        if p.exc is not None:
+            run.prove(f"{pre}head does not raise", FN, H, z3.BoolVal(False), replay=rp, detail=f"{type(p.exc).__name__}: {p.exc}")
+            continue
+        if p.value is None:
+            run.undecided(f"{pre}head", FN, "the eigen-decomposition of the contractions was never requested")
+            continue
+        created, norms = p.value
+        if len(created) < 3:
+            run.undecided(f"{pre}head", FN, "output arrays not found")
+            continue
+        K, G_, pa = created[0][0], created[1][0], created[2][0]
+        C = C11.spec_v2t(M)
+        iijj = sum(C[i, i, j, j] for i in range(3) for j in range(3))
+        ijij = sum(C[i, j, i, j] for i in range(3) for j in range(3))
+        run.prove(f"{pre}bulk modulus == C_iijj / 9 (Voigt)", FN, H, E.clear_formula(S.zz(K) * 9 == S.zz(iijj)), replay=rp)
+        run.prove(f"{pre}shear modulus == (C_ijij - C_iijj / 3) / 10 (Voigt)", FN, H, E.clear_formula(S.zz(G_) * 10 == S.zz(ijij) - S.zz(iijj) / 3), replay=rp)
+        if len(norms) < 2:
+            run.undecided(f"{pre}percent anisotropy", FN, "norms not computed through scipy.linalg.norm")
+            continue
+        diff, nd = norms[0]
+        X, nx = norms[1]
+        iso = S.ew(lambda a, b: a - b, X, diff)
+        Xs = C11.spec_m2v(M)
+        prove_entries(run, f"{pre}the vector compared with the isotropic one is the 21-component Voigt vector of the input", FN, H, X, Xs, replay=rp)
+        kk, gg = S.zz(K), S.zz(G_)
+        r2 = S.SQRT2
+        want_iso = [kk + 4 * gg / 3] * 3 + [r2 * (kk - 2 * gg / 3)] * 3 + [2 * gg] * 3 + [z3.RealVal(0)] * 12
+        run.prove(f"{pre}isotropic vector == (K+4G/3 x3, sqrt2 (K-2G/3) x3, 2G x3, 0 x12)", FN, H, z3.And(*[E.clear_formula(S.zz(a) == b) for a, b in zip(iso, want_iso)]), replay=rp)
+        dot = S._sum(S.ew(lambda a, b: a * b, diff, iso))
+        run.prove(f"{pre}X - X_iso is orthogonal to X_iso (the isotropic part is the orthogonal projection)", FN, H, E.clear_formula(S.zz(dot) == 0), replay=rp)
+        run.prove(f"{pre}percent anisotropy == 100 |X - X_iso| / |X|", FN, H + [S.zz(nx) > 0], E.clear_formula(S.zz(pa) * S.zz(nx) == 100 * S.zz(nd)), replay=rp)
+        run.prove(f"{pre}percent anisotropy in [0, 100] (Pythagoras: |X - X_iso|^2 = |X|^2 - |X_iso|^2)", FN, H + [S.zz(nx) > 0, S.zz(dot) == 0, S.zz(sumsq(X)) == S.zz(sumsq(diff)) + S.zz(sumsq(iso)) + 2 * S.zz(dot), S.zz(sumsq(iso)) >= 0],
+                  E.clear_formula(z3.And(S.zz(pa) >= 0, S.zz(pa) <= 100)), replay=rp)
+        run.prove(f"{pre}lemma: |X|^2 == |X - X_iso|^2 + |X_iso|^2 + 2 <X - X_iso, X_iso>", FN, H, S.zz(sumsq(X)) == S.zz(sumsq(diff)) + S.zz(sumsq(iso)) + 2 * S.zz(dot), structural=True)
 
 
 def _rp_head(M):
